@@ -277,6 +277,48 @@ func variant(rng *rand.Rand, q *Query) *Query {
 	return &r
 }
 
+// ------------------------------------------------------------------------------------------------ pooled stores
+// storage/memory pre-sizes seven maps with 10000 buckets for every new graph (a few milliseconds each), so the
+// harness re-uses memory stores: a pooled store has the graphs "?a", "?b", "?g" and is emptied before re-use.
+
+type pooled struct {
+	st storage.Store
+	gs map[string]storage.Graph
+}
+
+var pool []*pooled
+
+func emptyGraph(g storage.Graph) {
+	ctx := withTid(-1)
+	var ts []*triple.Triple
+	c := make(chan *triple.Triple)
+	go func() { must(0, g.Triples(ctx, storage.DefaultLookup, c)) }()
+	for t := range c {
+		ts = append(ts, t)
+	}
+	if len(ts) > 0 {
+		must(0, g.RemoveTriples(ctx, ts))
+	}
+}
+
+func getStore() *pooled {
+	if n := len(pool); n > 0 {
+		p := pool[n-1]
+		pool = pool[:n-1]
+		for _, g := range p.gs {
+			emptyGraph(g)
+		}
+		return p
+	}
+	p := &pooled{st: memory.NewStore(), gs: map[string]storage.Graph{}}
+	for _, n := range []string{"?a", "?b", "?g"} {
+		p.gs[n] = must(p.st.NewGraph(withTid(-1), n))
+	}
+	return p
+}
+
+func putStore(p *pooled) { pool = append(pool, p) }
+
 // ------------------------------------------------------------------------------------------------ mode seq
 
 type SeqOp struct {
@@ -312,9 +354,19 @@ func genSeq(id int, seed int64, faults bool) SeqCase {
 	v := newVocab(rng)
 	ctx := withTid(-1)
 	c := newCtl(false, 0)
-	inner := &gStore{in: memory.NewStore(), c: c}
+	freshStores := id%8 == 0 // then the graphs are created through the memoizer's NewGraph
+	var pi, pp *pooled
+	var innerMem, plain storage.Store
+	if freshStores {
+		innerMem, plain = memory.NewStore(), memory.NewStore()
+	} else {
+		pi, pp = getStore(), getStore()
+		defer putStore(pi)
+		defer putStore(pp)
+		innerMem, plain = pi.st, pp.st
+	}
+	inner := &gStore{in: innerMem, c: c}
 	memo := memoization.New(inner)
-	plain := memory.NewStore()
 	cs := SeqCase{Kind: "seq", ID: id, Seed: seed, Faults: faults}
 
 	ngraphs := 1 + rng.Intn(4)/3
@@ -325,9 +377,12 @@ func genSeq(id int, seed int64, faults bool) SeqCase {
 	present := map[int]map[string]*triple.Triple{0: {}, 1: {}}
 	open := func(g int) {
 		var mh storage.Graph
-		if _, ok := plainG[g]; !ok {
+		if _, ok := plainG[g]; !ok && freshStores {
 			mh = must(memo.NewGraph(ctx, gnames[g]))
 			plainG[g] = must(plain.NewGraph(ctx, gnames[g]))
+		} else if !ok {
+			mh = must(memo.Graph(ctx, gnames[g]))
+			plainG[g] = must(plain.Graph(ctx, gnames[g]))
 		} else {
 			mh = must(memo.Graph(ctx, gnames[g]))
 		}
@@ -605,12 +660,16 @@ func listing(g storage.Graph) []string {
 
 func refAt(snap []string, o *TOp) TAns {
 	ctx := withTid(-1)
-	g := must(memory.NewStore().NewGraph(ctx, "?r"))
+	p := getStore()
+	defer putStore(p)
+	g := p.gs["?g"]
 	ts := []*triple.Triple{}
 	for _, s := range snap {
 		ts = append(ts, must(triple.Parse(s, literal.DefaultBuilder())))
 	}
-	must(0, g.AddTriples(ctx, ts))
+	if len(ts) > 0 {
+		must(0, g.AddTriples(ctx, ts))
+	}
 	return tinyAns(o.query().run(ctx, g))
 }
 
@@ -619,10 +678,11 @@ func refAt(snap []string, o *TOp) TAns {
 func runSched(scn *Scenario, sched []int, extend bool) *SchedResult {
 	n := len(scn.Threads)
 	c := newCtl(true, n)
-	inner := &gStore{in: memory.NewStore(), c: c}
+	pst := getStore()
+	inner := &gStore{in: pst.st, c: c}
 	memo := memoization.New(inner)
 	ctx0 := withTid(-1)
-	raw := must(inner.in.NewGraph(ctx0, "?g"))
+	raw := pst.gs["?g"]
 	if len(scn.Init) > 0 {
 		must(0, raw.AddTriples(ctx0, tinyTriples(scn.Init)))
 	}
@@ -739,6 +799,9 @@ func runSched(scn *Scenario, sched []int, extend bool) *SchedResult {
 	c.mu.Unlock()
 	for t := 0; t < n; t++ {
 		close(c.resume[t])
+	}
+	if res.Complete {
+		putStore(pst) // every thread has finished: nothing can touch the store any more
 	}
 	return res
 }
